@@ -922,6 +922,71 @@ func TestMetaSequence(t *testing.T) {
 		}})
 }
 
+// ---- arbitrary frame streams through a framer with ReadMetaHeaders set (the configuration servers use) ---
+
+var colMetaAny = vstat.New("C19", "c19.meta-read-any-bytes")
+
+type MetaAnyScript struct {
+	Stream []byte `json:"stream"`
+}
+
+func TestMetaReadAnyBytes(t *testing.T) {
+	colMetaAny.Mandatory("header-block-interrupted", "frames-read:3+")
+	vstat.Run(t, vstat.Spec[MetaAnyScript]{Col: colMetaAny, Quick: 8000, Thorough: 300000,
+		Gen: func(t *rapid.T) MetaAnyScript {
+			var s MetaAnyScript
+			for i := 0; i < rapid.IntRange(1, 6).Draw(t, "n"); i++ {
+				switch rapid.IntRange(0, 3).Draw(t, "k") {
+				case 0:
+					s.Stream = append(s.Stream, framegen.Interrupted(t)...)
+				case 1:
+					s.Stream = append(s.Stream, fr.Headers(uint32(1+2*i), []byte{0x82, 0x87, 0x84, 0x41, 0x01, 'x'}, true, true, 0, false, 0, false, 0)...)
+				default:
+					s.Stream = append(s.Stream, framegen.Frame(t)...)
+				}
+			}
+			return s
+		},
+		Exec: func(s MetaAnyScript) (v *vstat.Violation) {
+			defer func() {
+				if r := recover(); r != nil {
+					v = vstat.Violf("meta-read|panic", "ReadFrame (ReadMetaHeaders set) panicked on %x: %v", s.Stream, r)
+				}
+			}()
+			f := h2.NewFramer(io.Discard, bytes.NewReader(s.Stream))
+			f.ReadMetaHeaders = hpack.NewDecoder(4096, nil)
+			n := 0
+			interrupted := false
+			for k := 0; k < 100; k++ {
+				fm, err := f.ReadFrame()
+				var ce h2.ConnectionError
+				var se h2.StreamError
+				if err != nil {
+					if errors.As(err, &se) {
+						continue // a stream error: the connection goes on
+					}
+					if errors.As(err, &ce) && h2.ErrCode(ce) == h2.ErrCodeProtocol {
+						interrupted = true
+					}
+					break
+				}
+				if fm == nil {
+					return vstat.Violf("meta-read|nil-frame-without-error", "ReadFrame returned nil, nil")
+				}
+				n++
+			}
+			cl := []string{}
+			if interrupted {
+				cl = append(cl, "header-block-interrupted")
+			}
+			if n >= 3 {
+				cl = append(cl, "frames-read:3+")
+			}
+			colMetaAny.Case(fmt.Sprintf("%x", s.Stream), interrupted, map[string]any{"stream_len": len(s.Stream), "frames_read": n}, cl...)
+			return nil
+		}})
+}
+
 func dedup(in []string) []string {
 	seen := map[string]bool{}
 	var out []string
